@@ -123,15 +123,18 @@ def implPathToks : Toks :=
 
 def implPathTy : Ty := .path false true 2 "entrait" implPathToks
 
-def implReceiverArg : FnArg :=
-  .typed [] (.ident false false "__impl" none) (.ref_ none false implPathTy)
+def implReceiverWith (lt : Option String) : FnArg :=
+  .typed [] (.ident false false "__impl" none) (.ref_ lt false implPathTy)
+
+def implReceiverArg : FnArg := implReceiverWith none
 
 def selfReceiverArg (reference : Option (Option String)) : FnArg := .recv [] reference false none
 
 def genFirstReceiver (kind : ReceiverKind) (reference : Option (Option String)) : FnArg :=
   match kind with
   | .selfRef | .dynamicImpl => selfReceiverArg reference
-  | .staticImpl => implReceiverArg
+  -- the static `__impl` receiver stands for the dependency reference and keeps its lifetime
+  | .staticImpl => implReceiverWith reference.join
 
 /-- first half of `generate_params`: the dependency parameter becomes the receiver (or one is
     inserted for `no_deps`); inputs and trailing-comma flag -/
